@@ -373,6 +373,76 @@ let () =
         Printf.printf "wtokens %s\n" (String.concat " " (List.map (function
             | WTok (r, h) -> Printf.sprintf "T:%d:%d" (int_of_n r) (int_of_nat h)
             | WPull k -> Printf.sprintf "Q:%d" (int_of_nat k)) evs))
+      | L [A "warncheck"; mode; fuel] ->
+        (* mode 0: first-rule selection; 1: REJECT / variable trailing context (every matching rule may be reached) *)
+        let rejmode = ab mode in
+        let nsc = int_of_n prog.p_nsc in
+        let nrules = List.length prog.p_rules in
+        let canon (s : sstate) = List.sort compare s in
+        let tbl : (sstate, int) Hashtbl.t = Hashtbl.create 997 in
+        let states = ref [] and count = ref 0 in
+        let parent : (int, (int * int) option) Hashtbl.t = Hashtbl.create 997 in
+        let q = Queue.create () in
+        let intern s from =
+          let c = canon s in
+          match Hashtbl.find_opt tbl c with
+          | Some i -> i
+          | None -> incr count; let i = !count in Hashtbl.add tbl c i; states := (i, s) :: !states;
+            Hashtbl.add parent i from; Queue.add (i, s) q; i in
+        let starts = ref [] in
+        let start_info = Hashtbl.create 17 in
+        for sc = 1 to nsc do
+          List.iter (fun bol ->
+              let s0 = spec_start prog (n_of_int sc) bol in
+              let i = intern s0 None in
+              if not (Hashtbl.mem start_info i) then Hashtbl.add start_info i (sc, bol);
+              starts := (pos_of_int i, s0) :: !starts) [false; true]
+        done;
+        let succ_tbl : (int * int, int) Hashtbl.t = Hashtbl.create 9973 in
+        let fuel = ai fuel in
+        let out_of_fuel = ref false in
+        (* first-reached state per rule, split by "after at least one byte" *)
+        let first_hd : (int, int) Hashtbl.t = Hashtbl.create 97 and among : (int, int) Hashtbl.t = Hashtbl.create 97 in
+        while not (Queue.is_empty q) && not !out_of_fuel do
+          let (i, s) = Queue.pop q in
+          List.iter (fun b ->
+              let s' = sstep s b in
+              let j = intern s' (Some (i, int_of_n b)) in
+              Hashtbl.replace succ_tbl (i, int_of_n b) j;
+              (match sobs s' with
+               | [] -> ()
+               | h :: _ as l ->
+                 if not (Hashtbl.mem first_hd (int_of_n h)) then Hashtbl.add first_hd (int_of_n h) j;
+                 List.iter (fun r -> if not (Hashtbl.mem among (int_of_n r)) then Hashtbl.add among (int_of_n r) j) l);
+              if !count > fuel then out_of_fuel := true) al
+        done;
+        if !out_of_fuel then Printf.printf "warncheck INCONCLUSIVE fuel\n"
+        else begin
+          let qm = List.fold_left (fun acc (i, s) -> PositiveMap.add (pos_of_int i) s acc) PositiveMap.empty !states in
+          let succ k b = match Hashtbl.find_opt succ_tbl (int_of_pos k, int_of_n b) with Some j -> pos_of_int j | None -> XH in
+          (* path to state j: the word leading to it from its start state *)
+          let rec path j acc = match Hashtbl.find parent j with
+            | None -> (j, acc)
+            | Some (i, b) -> path i (b :: acc) in
+          for r = 1 to nrules + 1 do
+            let reach = if rejmode then Hashtbl.find_opt among r else Hashtbl.find_opt first_hd r in
+            match reach with
+            | Some j ->
+              let (st, word) = path j [] in
+              let (sc, bol) = Hashtbl.find start_info st in
+              (* confirm with the proved scanner: on this word the rule is selected (or, in REJECT mode, is among the matches) *)
+              let s0 = spec_start prog (n_of_int sc) bol in
+              let w = List.map n_of_int word in
+              let okw = if rejmode then List.exists (fun x -> int_of_n x = r) (sobs (List.fold_left sstep s0 w))
+                else (let (r', k) = spec_scan s0 w in int_of_n r' = r && int_of_nat k = List.length w) in
+              Printf.printf "rule %d matchable sc=%d bol=%d witness=[%s] confirmed=%b\n" r sc (if bol then 1 else 0)
+                (String.concat " " (List.map string_of_int word)) okw
+            | None ->
+              let pred = if rejmode then not_among (n_of_int r) else not_first (n_of_int r) in
+              let v = closed_check !starts qm succ al pred in
+              Printf.printf "rule %d unmatchable proved=%b states=%d\n" r v !count
+          done
+        end
       | L [A "kinds"] ->
         Printf.printf "kinds %s\n" (String.concat " " (List.map (fun r ->
             match rule_kind r with
